@@ -12,7 +12,9 @@ Mixes == { <<"fall", "fall", "fall">>, <<"fall", "term", "fall", "rej">>, <<"eat
            \* "wrapfall": a handler wraps the connection with prefetched bytes unread, a later route prefetches again, fall-through
            <<"wrapfall", "fall", "wrapfall", "fall">>, <<"wrapfall", "wrapfall", "fall">>,
            \* "subfall": a matched route whose handler is a real subroute that hands the connection back, then fall-through
-           <<"subfall", "subfall", "fall", "subfall">>, <<"subfall", "term", "subfall">> }
+           <<"subfall", "subfall", "fall", "subfall">>, <<"subfall", "term", "subfall">>,
+           \* "thrfall": a matched route whose handler is the real throttle handler, then fall-through: the consumer reads through it
+           <<"thrfall", "fall", "thrfall">> }
 Grid == [mix : Mixes, consumer : {"fast", "slow", "absent"}, procs : {1, 2, 16},
          slen : {0, 5, 300, 2048, 5000, 20000}, close : {"end", "early", "earlylate"}, pace : {0, 1}]
 \* "earlylate": closed early, the underlying listener's Accept learns of it 300 ms later (a listener closed by way of
